@@ -1,5 +1,6 @@
 import Slu.Model.Readers
 import SluProofs.Lemmas.ReadersSort
+import SluProofs.Lemmas.ReadersCols
 import SluProofs.Lemmas.ReadersText
 import SluProofs.Lemmas.ReadersTriple
 /-
@@ -97,6 +98,31 @@ theorem formFull_spec [Inhabited α] (n : Nat) (es : List (Trip α))
     (∀ t, t ∈ (formFull n es).flatten ↔ t ∈ es ∨ (t.row ≠ t.col ∧ t.swap ∈ es)) ∧
     (formFull n es).flatten.length + es.countP (fun e => decide (e.row = e.col)) = 2 * es.length :=
   ⟨formFull_length n es, formFull_cols n es hrow, mem_formFull n es hrow hcol, formFull_count n es hrow hcol⟩
+
+/-- **C16 (FormFullA, returned arrays).** The arrays handed back (`a_colptr`, `a_rowind/a_val` as the
+entry array) have `n+1` pointers starting at 0, `colptr[n] = 2*nnz - ndiag` (the count of the full
+matrix, not `2*nnz - n`), and the storage segment of column `j` is the column list of `formFull_spec`. -/
+theorem formFull_arrays [Inhabited α] (n : Nat) (es : List (Trip α))
+    (hrow : ∀ e ∈ es, e.row < n) (hcol : ∀ e ∈ es, e.col < n) :
+    (cscOfCols (formFull n es)).1.size = n + 1 ∧
+    (cscOfCols (formFull n es)).1.getD 0 1 = 0 ∧
+    (cscOfCols (formFull n es)).1.getD n 0 + es.countP (fun e => decide (e.row = e.col)) = 2 * es.length ∧
+    (cscOfCols (formFull n es)).2.size + es.countP (fun e => decide (e.row = e.col)) = 2 * es.length ∧
+    (∀ j, j < n → colSeg (cscOfCols (formFull n es)).1 (cscOfCols (formFull n es)).2 j =
+      (es.filter (fun e => decide (e.row = j) && decide (e.row ≠ e.col))).map Trip.swap ++
+        es.filter (fun e => decide (e.col = j))) := by
+  obtain ⟨h1, h2, h3⟩ := cscOfCols_inv (formFull n es)
+  have hlen := formFull_length n es
+  have hcount := formFull_count n es hrow hcol
+  refine ⟨by rw [h1, hlen], ?_, ?_, ?_, ?_⟩
+  · rw [Array.getD_eq_getD_getElem?, h3 0 (Nat.zero_le _)]; simp
+  · have htk : (formFull n es).take n = formFull n es := List.take_of_length_le (by omega)
+    rw [Array.getD_eq_getD_getElem?, h3 n (by omega), htk]; exact hcount
+  · rw [← Array.length_toList, h2]; exact hcount
+  · intro j hj
+    rw [cscOfCols_colSeg _ j (by omega)]
+    have := formFull_cols n es hrow
+    simp only [this, List.getElem_map, List.getElem_range]
 
 example : ∀ e ∈ [(⟨1, 0, 'a'⟩ : Trip Char), ⟨2, 0, 'b'⟩, ⟨2, 1, 'c'⟩], e.row < 3 := by decide
 example : (formFull 3 [(⟨1, 0, 'a'⟩ : Trip Char), ⟨2, 0, 'b'⟩, ⟨2, 1, 'c'⟩]).flatten.length = 6 := by decide
